@@ -2,7 +2,7 @@
 import re
 
 from .lib import PLUMBING, callee_allow, closure_args_of_call, lit_strs, operand_local, root_fn
-from .lib_c08 import Flow, Origins, TypeWalk, field_reads, field_writes
+from .lib_c08 import Flow, Origins, TypeWalk, field_reads, field_writes, gen_role
 
 LEVEL = "other"
 TECHNIQUE = ("static analysis: source/sink flow and per-iteration edge dominance on gen_openapi's MIR, sibling agreement between the document iterator and the router, "
@@ -45,6 +45,9 @@ INTERIOR = r"(Cell<|RefCell|Mutex|RwLock|Atomic|OnceLock|OnceCell|LazyLock|LazyC
 
 def _sfx(f):
     return f.id.split("gen_openapi")[-1].lstrip(":") or "gen_openapi"
+
+
+_role = gen_role
 
 
 class _Model:
@@ -132,7 +135,7 @@ def _between(f, op, stop=r"iter::Iterator::next$"):
 # --------------------------------------------------------------------------- R1
 def r1_same_filter(ctx):
     R = ctx.rule("C06.R1", "the document is assembled from router.endpoints(Some(version)) with the version given to openapi(); the iterator keeps a handler iff "
-                 "ApiEndpointVersions::matches(handler.versions, that version) — the predicate the router uses", floor=16)
+                 "ApiEndpointVersions::matches(handler.versions, that version) — the predicate the router uses", floor=20)
     m = _model(ctx, R)
     ds, g = m.ds, m.gen
     if m.vparam is None:
@@ -231,7 +234,7 @@ def r1_same_filter(ctx):
     ctx.check(R, "filter-tests-handler-versions", (EP, "versions") in o0.fields and 2 in f.slice(t["args"][0]).params(), "matches() receiver is the candidate handler's `versions`", (f, bb))
     ctx.check(R, "filter-tests-iterator-version", o1.roots == {(ihf.id, 2)} and not _plumbing_only(o1), "matches() argument is iter_handlers_from_node's version (origin %s)" % sorted(o1.roots), (f, bb))
     sw = [(sb, st) for sb, st in f.switches() if operand_local(st["discr"]) == t["dest"]["l"]]
-    thens = [(tb_, tt) for tb_, tt in f.live_calls(r"bool::(then|then_some)$") if operand_local(tt["args"][0]) == t["dest"]["l"]]
+    thens = [(tb_, tt) for tb_, tt in f.live_calls(r"<impl bool>::(then|then_some)$") if operand_local(tt["args"][0]) == t["dest"]["l"]]
     if len(sw) == 1 and not thens:
         tb, fb = _bool_targets(f, sw[0][0])
         somes = [(b, s) for b, i, s in f.aggregates(r"^std::option::Option$", "Some") if s["pl"]["l"] == 0 and not s["pl"]["p"]]
@@ -243,7 +246,7 @@ def r1_same_filter(ctx):
     elif len(thens) == 1 and not sw:
         tb_, tt = thens[0]
         ret = f.slice({"l": 0, "p": []})
-        ok = any(b == tb_ for c, b, x in ret.callees) and not callee_allow(ret, PLUMBING + [r"bool::(then|then_some)$", MATCHES.strip("^$")]) and ("unop", "Not") not in ret.atoms
+        ok = any(b == tb_ for c, b, x in ret.callees) and not callee_allow(ret, PLUMBING + [r"<impl bool>::(then|then_some)$", MATCHES.strip("^$")]) and ("unop", "Not") not in ret.atoms
         ctx.check(R, "filter-keeps-iff-matches", ok, "the closure returns matches(..).then(..): Some exactly when matches() is true: %s" % ok, (f, tb_))
         ctx.check(R, "filter-yields-tested-handler", 2 in f.slice(tt["args"][1]).params(), "the yielded handler is the one whose versions were tested", (f, bb))
     else:
@@ -596,7 +599,7 @@ def r4_refs_resolve(ctx):
                 back = m.next is not None and f.id == g.id and m.next[0] in r
                 ok = not uses and not rets and not back
                 detail = "definitions.extend(dependencies.clone()) lies on every path from the Static arm to a use of the converted schema / the end of the arm: %s" % ok
-            ctx.check(R, "static-deps-recorded:%s" % _sfx(f), ok, detail, (f, sb))
+            ctx.check(R, "static-deps-recorded:%s" % _role(f), ok, detail, (f, sb))
             # Gen arm
             if gn_t is not None and gn_t != st_t and not f.is_diverging(gn_t):
                 ind = []
@@ -611,9 +614,9 @@ def r4_refs_resolve(ctx):
                     okg = okg and any(c.endswith("SchemaGenerator::new") for c in oa.calls)
                     if it.get("callee_op"):
                         okg = okg and (ASG, "schema") in m.flow.origins(f, it["callee_op"]).fields
-                ctx.check(R, "gen-uses-shared-generator:%s" % _sfx(f), okg, "the Gen arm calls the endpoint's schema function with the one shared generator: %s (%d call(s))" % (okg, len(ind)), (f, sb))
+                ctx.check(R, "gen-uses-shared-generator:%s" % _role(f), okg, "the Gen arm calls the endpoint's schema function with the one shared generator: %s (%d call(s))" % (okg, len(ind)), (f, sb))
             else:
-                ctx.check(R, "gen-arm-rejected:%s" % _sfx(f), gn_t is None or f.is_diverging(gn_t) or gn_t == st_t, "a Gen schema in this position is rejected loudly (unimplemented!)", (f, sb), nontrivial=False)
+                ctx.check(R, "gen-arm-rejected:%s" % _role(f), gn_t is None or f.is_diverging(gn_t) or gn_t == st_t, "a Gen schema in this position is rejected loudly (unimplemented!)", (f, sb), nontrivial=False)
     ctx.check(R, "schema-destructuring-sites", nsites >= 5, "places that destructure ApiSchemaGenerator under gen_openapi: %d" % nsites, g, nontrivial=False)
     # error responses
     ers = [(f, bb, st) for f in m.region for bb, i, st in f.aggregates(r"gen_openapi::ErrorResponse$") if bb in f.reachable(0)]
@@ -674,7 +677,7 @@ def r5_determinism(ctx):
         for bb, t in f.live_calls():
             c = t.get("callee") or ""
             r = t.get("resolved") or ""
-            own = (re.search(HASHY, c) and re.search(HASH_ITER, c)) or (re.search(HASHY, r) and re.search(HASH_ITER, r.split(">::")[-1] if ">::" in r else r))
+            own = (re.search(HASHY, c) and re.search(HASH_ITER, c)) or (re.search(HASHY, r) and re.search(HASH_ITER, "::" + r.split("::")[-1]))
             hidden = False
             if not own and re.search(r"(Extend::extend|FromIterator::from_iter|Iterator::(chain|zip|eq|cmp)|IntoIterator::into_iter)$", c):
                 for a in t["args"]:
